@@ -17,7 +17,13 @@ from lib.snapshot import snapshot
 CONFIG = {
     "shards": {"quick": 8, "thorough": 16},
     "budget_s": {"quick": 120, "thorough": 2400},
-    "rule": ("pdm: shape (2-12 leaves quick / <= 40 thorough; polytomies up to arity 5, unifurcations anywhere incl. "
+    "rule": ("history: one PhylogeneticDistanceMatrix object and two trees over one namespace (3-8 / <= 14 taxa; second "
+             "tree on the same / a superset / a subset / an overlapping taxon set); after the first compile_from_tree and "
+             "after each of 2-6 drawn steps (scale_edges, set one length, raw subtree move, reroot_at_node / "
+             "to_outgroup_position without update_bipartitions, encode_bipartitions, recompile the same object from the "
+             "current tree, recompile it from the other tree) every matrix answer is compared with the snapshot the "
+             "matrix was last compiled from (documented: a matrix is a snapshot) and treemeasure.patristic_distance with "
+             "the tree as it is now.  pdm: shape (2-12 leaves quick / <= 40 thorough; polytomies up to arity 5, unifurcations anywhere incl. "
              "chains and above leaves/root) x rooting flag {True,False,None} x length pattern (none, unit, small ints "
              "incl. 0, dyadic, general floats, partially missing = counted as zero) x namespace history (unused and "
              "removed taxa) x is_store_path_edges; every ordered pair of leaf taxa and (trees with <= 60 nodes) every pair of nodes is compared, "
@@ -34,7 +40,7 @@ CONFIG = {
              "Exhaustive: every ordered shape with 2-5 (quick) / 2-6 (thorough) leaves x 2 rootings x 2 length "
              "patterns x (no unifurcation | one unifurcation above each node): all pairs, all node pairs and all "
              "non-empty taxon subsets in all three mrca query forms.  Non-trivial = tree with a polytomy or >= 3 "
-             "levels (pdm/mrca/exhaustive), >= 5 taxa (nj/upgma); distinct = whole case."),
+             "levels (pdm/mrca/exhaustive), >= 5 taxa (nj/upgma), >= 1 step applied (history); distinct = whole case."),
     "exhaustive_note": {"quick": "all ordered shapes with 2-5 leaves x rooting x length pattern x single-unifurcation "
                                  "variants: all leaf pairs, node pairs and taxon subsets",
                         "thorough": "all ordered shapes with 2-6 leaves x rooting x length pattern x single-"
@@ -164,12 +170,6 @@ def _check_pdm(ctx, case, ndm_node_limit=60, count=True):
     leaves = pre.leaves()
     lab = dict((i, pre.taxon[i]) for i in leaves)
     tx = dict((i, taxa[idx_of(pre.taxon[i])]) for i in leaves)
-    path = {}
-    for a in leaves:
-        for b in leaves:
-            path[(a, b)] = pre.path(a, b)
-    scale = max(v[0] for v in path.values())
-    eq = (lambda x, y: x == y) if exact else (lambda x, y: close(x, y, scale))
     tag = "rooted=%r store_edges=%r tree=%s" % (case["rooted"], case["store_edges"], pre.canon(ordered=True, lengths=True))
 
     kw = {"is_store_path_edges": True} if case["store_edges"] else {}
@@ -181,6 +181,24 @@ def _check_pdm(ctx, case, ndm_node_limit=60, count=True):
     ctx.check(not problems and same_structure(pre, post), "from_tree_leaves_the_tree_unchanged", "C14.pdm.tree_unchanged",
               lambda: "%s problems=%r after=%s" % (tag, problems, post.canon(ordered=True, lengths=True)))
     ctx.check(pdm.taxon_namespace is ns, "matrix_uses_tree_namespace", "C14.pdm.namespace", tag)
+    path, scale, eq = verify_matrix(ctx, pdm, pre, tx, case["subsets"], case["store_edges"], exact, tag)
+    total = pre.total_length(include_root=True)
+    nodes = pre.nodes()
+    _check_pdm_rest(ctx, case, ndm_node_limit, count, n, ns, tree, pre, pdm, leaves, lab, tx, path, scale, eq, tag, nodes)
+
+
+def verify_matrix(ctx, pdm, pre, tx, subsets, store_edges, exact, tag):
+    """Every answer of the matrix against the RefTree `pre` it was compiled from (tx: leaf index -> Taxon)."""
+    from dendropy.utility.error import NullAssemblageException
+    leaves = pre.leaves()
+    lab = dict((i, pre.taxon[i]) for i in leaves)
+    path = {}
+    for a in leaves:
+        for b in leaves:
+            path[(a, b)] = pre.path(a, b)
+    scale = max(v[0] for v in path.values())
+    eq = (lambda x, y: x == y) if exact else (lambda x, y: close(x, y, scale))
+    case = {"store_edges": store_edges, "subsets": subsets}
 
     # -- every ordered pair (diagonal included): distance, steps, common ancestor
     for a in leaves:
@@ -283,6 +301,11 @@ def _check_pdm(ctx, case, ndm_node_limit=60, count=True):
         gotn = ctx.call("C14.pdm.patristic_distance", pdm.patristic_distance, tx[a], tx[b], is_normalize_by_tree_size=True)
         ctx.check(close(gotn, path[(a, b)][0] / total, scale / total), "patristic_distance_normalized_by_tree_length",
                   "C14.pdm.patristic_normalized", lambda: "got %r want %r; %s" % (gotn, path[(a, b)][0] / total, tag))
+    return path, scale, eq
+
+
+def _check_pdm_rest(ctx, case, ndm_node_limit, count, n, ns, tree, pre, pdm, leaves, lab, tx, path, scale, eq, tag, nodes):
+    from dendropy.calculate import phylogeneticdistance, treemeasure
 
     # -- CSV hop: the table read back holds the same entries (weighted and step counts)
     if case.get("csv"):
@@ -308,7 +331,6 @@ def _check_pdm(ctx, case, ndm_node_limit=60, count=True):
         ctx.cls("pdm:csv_names:row=%r,col=%r" % (rown, coln))
 
     # -- NodeDistanceMatrix: every pair of nodes
-    nodes = pre.nodes()
     if len(nodes) <= ndm_node_limit:
         ndm = ctx.call("C14.ndm.compile", tree.node_distance_matrix)
         post, problems = snapshot(tree)
@@ -358,6 +380,164 @@ def _check_pdm(ctx, case, ndm_node_limit=60, count=True):
     if any(len(pre.children[i]) == 1 for i in nodes):
         ctx.cls("pdm:unifurcation")
     ctx.sample("pdm", {"newick": shapes.spec_to_newick(case["spec"]), "rooted": case["rooted"], "lenpat": case["lenpat"]})
+
+
+# ---------------------------------------------------------------------------
+# sub-check "history": answers after earlier calls, tree edits and recompilation of the same matrix object
+# ---------------------------------------------------------------------------
+
+HISTORY_OPS = ["move", "reroot", "switch", "scale", "setlen", "move", "reroot", "outgroup", "encode", "recompile", "switch"]
+
+
+@st.composite
+def history_cases(draw, max_leaves):
+    total = draw(st.integers(3, max_leaves))
+    kind = draw(st.sampled_from(["same", "superset", "superset", "subset", "overlap"]))
+    universe = list(range(total))
+    if kind == "same":
+        a = b = universe
+    elif kind == "superset":
+        a = sorted(draw(st.lists(st.sampled_from(universe), unique=True, min_size=2, max_size=max(2, total - 1))))
+        b = universe
+    elif kind == "subset":
+        a = universe
+        b = sorted(draw(st.lists(st.sampled_from(universe), unique=True, min_size=2, max_size=max(2, total - 1))))
+    else:
+        a = sorted(draw(st.lists(st.sampled_from(universe), unique=True, min_size=2, max_size=total)))
+        b = sorted(draw(st.lists(st.sampled_from(universe), unique=True, min_size=2, max_size=total)))
+    trees = []
+    for members in (a, b):
+        sl = draw(shapes.with_lengths(shapes.shapes(min_leaves=len(members), max_leaves=len(members), max_arity=4),
+                                      patterns=("none", "unit", "smallint", "dyadic", "dyadic")))
+        for nd in shapes.spec_nodes(sl["spec"]):
+            if nd["t"] is not None:
+                nd["t"] = members[nd["t"]]
+        trees.append({"spec": sl["spec"], "lenpat": sl["lenpat"], "rooted": draw(st.sampled_from([True, True, False, None]))})
+    ops = draw(st.lists(st.fixed_dictionaries({"op": st.sampled_from(HISTORY_OPS), "x": st.integers(0, 100), "y": st.integers(0, 100),
+                                               "k": st.integers(0, 16)}), min_size=2, max_size=6))
+    return {"total": total, "kind": kind, "trees": trees, "ops": ops, "store_edges": draw(st.booleans()),
+            "subsets": draw(st.lists(st.lists(st.integers(0, total - 1), unique=True, max_size=total), min_size=1, max_size=2)),
+            "tm_pairs": [list(p) for p in draw(st.lists(st.tuples(st.integers(0, 40), st.integers(0, 40)), min_size=2, max_size=4))]}
+
+
+def check_history(ctx, case):
+    with warnings.catch_warnings():
+        warnings.simplefilter("ignore")
+        _check_history(ctx, case)
+
+
+def _check_history(ctx, case):
+    from dendropy.calculate import phylogeneticdistance, treemeasure
+    ns, taxa, bits = shapes.build_namespace(shapes.plain_history(case["total"]))
+    trees = [shapes.build_tree(t["spec"], ns, taxa, is_rooted=t["rooted"]) for t in case["trees"]]
+    cur = 0
+    log = []
+
+    def snap(k):
+        rt, problems = snapshot(trees[k])
+        if problems:
+            ctx.fail("tree_well_formed_in_history", "C14.history.wellformed", "%r after %r" % (problems, log))
+        return rt
+
+    def tx_of(rt):
+        return dict((i, taxa[idx_of(rt.taxon[i])]) for i in rt.leaves())
+
+    def usable(rt):
+        # every leaf carries a taxon (an emptied internal node or a left-behind seed would be a taxon-less leaf)
+        return all(rt.taxon[i] is not None for i in rt.leaves()) and rt.n_leaves() >= 2
+
+    kw = {"is_store_path_edges": True} if case["store_edges"] else {}
+    pdm = phylogeneticdistance.PhylogeneticDistanceMatrix(**kw)
+    compiled = snap(cur)
+    ctx.call("C14.history.compile", pdm.compile_from_tree, trees[cur])
+    log.append("compile(tree0)")
+
+    def ask():
+        tag = "history %r; matrix compiled from %s" % (log, compiled.canon(ordered=True, lengths=True))
+        # the matrix is a snapshot of the tree it was last compiled from
+        verify_matrix(ctx, pdm, compiled, tx_of(compiled), case["subsets"], case["store_edges"], True, tag)
+        # treemeasure.patristic_distance answers for the tree as it is now
+        for k, tree in enumerate(trees):
+            now = snap(k)
+            if not usable(now):
+                continue
+            leaves = now.leaves()
+            want = dict(((a, b), now.path(a, b)[0]) for a in leaves for b in leaves)
+            tx = tx_of(now)
+            pairs = [(leaves[ka % len(leaves)], leaves[kb % len(leaves)]) for ka, kb in case["tm_pairs"]]
+            if len(leaves) <= 5:
+                pairs = [(a, b) for a in leaves for b in leaves]
+            for a, b in pairs:
+                got = ctx.call("C14.history.treemeasure", treemeasure.patristic_distance, tree, tx[a], tx[b])
+                ctx.check(got == want[(a, b)], "treemeasure_patristic_distance_follows_the_current_tree",
+                          "C14.history.treemeasure_patristic_distance",
+                          lambda: "tree%d %s-%s got %r want %r; tree before the call %s; history %r" % (
+                              k, now.taxon[a], now.taxon[b], got, want[(a, b)], now.canon(ordered=True, lengths=True), log))
+
+    ask()
+    applied = []
+    for op in case["ops"]:
+        tree = trees[cur]
+        rt = snap(cur)
+        name = op["op"]
+        nonroot = [i for i in rt.nodes() if i != rt.root]
+        if name == "scale":
+            ctx.call("C14.history.scale_edges", tree.scale_edges, op["k"] / 4.0)
+        elif name == "setlen":
+            if case["trees"][cur]["lenpat"] == "none":
+                continue
+            rt.obj[nonroot[op["x"] % len(nonroot)]].edge.length = op["k"] / 8.0
+        elif name == "move":
+            cand = [i for i in nonroot if len(rt.children[rt.parent[i]]) >= 2]
+            if not cand:
+                continue
+            x = cand[op["x"] % len(cand)]
+            sub = set(rt.preorder(x))
+            targets = [i for i in rt.internals() if i not in sub and i != rt.parent[x]]
+            if not targets:
+                continue
+            rt.obj[rt.parent[x]].remove_child(rt.obj[x])
+            rt.obj[targets[op["y"] % len(targets)]].add_child(rt.obj[x])
+        elif name == "reroot":
+            cand = [i for i in rt.internals() if i != rt.root]
+            if not cand or len(rt.children[rt.root]) < 2:
+                continue
+            ctx.call("C14.history.reroot_at_node", tree.reroot_at_node, rt.obj[cand[op["x"] % len(cand)]], update_bipartitions=False)
+        elif name == "outgroup":
+            if len(rt.children[rt.root]) < 2 or not nonroot:
+                continue
+            ctx.call("C14.history.to_outgroup_position", tree.to_outgroup_position, rt.obj[nonroot[op["x"] % len(nonroot)]],
+                     update_bipartitions=False)
+        elif name == "encode":
+            ctx.call("C14.history.encode", tree.encode_bipartitions)
+        elif name == "recompile":
+            now = snap(cur)
+            if not usable(now):
+                continue
+            compiled = now
+            ctx.call("C14.history.compile", pdm.compile_from_tree, tree)
+        elif name == "switch":
+            now = snap(1 - cur)
+            if not usable(now):
+                continue
+            cur = 1 - cur
+            compiled = now
+            ctx.call("C14.history.compile", pdm.compile_from_tree, trees[cur])
+        log.append("%s(tree%d,x=%d,y=%d,k=%d)" % (name, cur, op["x"], op["y"], op["k"]))
+        applied.append(name)
+        if not usable(snap(cur)):
+            # a re-rooting left a taxon-less leaf behind (C07 known finding territory): stop the history here
+            ctx.cls("history:stopped_taxonless_leaf")
+            return
+        if name in ("recompile", "switch"):
+            ctx.check(pdm.taxon_namespace is ns, "matrix_uses_tree_namespace", "C14.history.namespace", repr(log))
+        ask()
+    for name in set(applied):
+        ctx.cls("history:op:" + name)
+    ctx.cls("history:taxa_of_second_tree:" + case["kind"])
+    if applied:
+        ctx.nontrivial(["history", case])
+    ctx.sample("history", {"trees": [shapes.spec_to_newick(t["spec"]) for t in case["trees"]], "ops": log})
 
 
 # ---------------------------------------------------------------------------
@@ -938,7 +1118,7 @@ def _check_exh(ctx, item):
         ctx.nontrivial(["exh", item])
 
 
-SUBCHECKS = {"pdm": check_pdm, "mrca": check_mrca, "nj": check_nj, "upgma": check_upgma,
+SUBCHECKS = {"history": check_history, "pdm": check_pdm, "mrca": check_mrca, "nj": check_nj, "upgma": check_upgma,
              "upgma_general": check_upgma_general, "exhaustive": check_exh}
 
 
@@ -947,6 +1127,7 @@ def run(ctx):
     n = ctx.nshards
     runner.run_items(ctx, "exhaustive", exhaustive_items(5 if quick else 6), check_exh)
     runner.run_given(ctx, "pdm", pdm_cases(12 if quick else 40), check_pdm, (1200 if quick else 16000) // n)
+    runner.run_given(ctx, "history", history_cases(8 if quick else 14), check_history, (1000 if quick else 16000) // n)
     runner.run_given(ctx, "mrca", mrca_cases(12 if quick else 40), check_mrca, (1600 if quick else 32000) // n)
     runner.run_given(ctx, "nj", nj_cases(12 if quick else 30), check_nj, (1200 if quick else 16000) // n)
     runner.run_given(ctx, "upgma", upgma_cases(12 if quick else 30), check_upgma, (800 if quick else 12000) // n)
